@@ -57,6 +57,12 @@ Theorem C01_same_stages_same_filter : forall w (p q : pipe Id S) x, leaves Id S 
   w1 = w2 /\ y1 = y2 /\ leaves Id S p' = leaves Id S q'.
 Proof. exact (same_leaves_same_filter Id S X W fstep). Qed.
 End C01.
+(* the property's wording made explicit: stages that log their calls, whatever else they compute *)
+Theorem C01_each_stage_once_in_order : forall (Id S X : Type) (g : Id -> S -> X -> S * X) w (p : pipe Id S) x,
+  exists tr, fst (fst (pfilter Id S X (list (Id * X)) (logged Id S X g) w p x)) = w ++ tr /\
+             map fst tr = map fst (leaves Id S p).
+Proof. exact each_stage_once_in_order. Qed.
+Print Assumptions C01_each_stage_once_in_order.
 Print Assumptions C01_filter_flat.
 Print Assumptions C01_source_flat.
 Print Assumptions C01_sink_flat.
